@@ -44,6 +44,9 @@ def reference_map(draw, rid, sizes=("tiny", "small", "medium", "medium", "large"
         copies = draw(st.integers(1, 3))
         gaps = gaps[:b + w] + gaps[b:b + w] * copies + gaps[b + w:]
     first = draw(st.one_of(st.integers(0, 3000), st.integers(0, 30000)))
+    if draw(st.integers(0, 11)) == 0:
+        # chromosome-scale coordinates (tens of Mbp): where single-precision or text-width shortcuts lose the decimal
+        first += draw(st.integers(2_000_000, 40_000_000))
     labels = _cum(first, gaps)
     salt = draw(st.sampled_from([0, 0, 3, 7]))
     labels = [r1(p + ((i * salt) % 10) / 10) for i, p in enumerate(labels)]
